@@ -43,6 +43,19 @@ type fsSpec struct {
 	Children []fsSpec `json:"c,omitempty"`
 	NGen     int      `json:"gen,omitempty"` // D only: NGen generated empty files with 200-byte names
 	NameLen  int      `json:"namelen,omitempty"`
+	// LongNames: the children are named with names of the maximum length the
+	// file system allows (255 bytes; ASCII, 3-byte runes, 254 bytes)
+	LongNames bool `json:"longnames,omitempty"`
+}
+
+// fsLongNames: names at the 255-byte limit of the usual file systems.
+var fsLongNames = []string{strings.Repeat("x", 255), strings.Repeat("語", 85), strings.Repeat("y", 254), strings.Repeat("é", 127) + "z"}
+
+func (s fsSpec) childName(i int) string {
+	if s.LongNames {
+		return fsLongNames[i]
+	}
+	return fsNames[i]
 }
 
 type fsCase struct {
@@ -52,7 +65,15 @@ type fsCase struct {
 
 func (s fsSpec) String() string {
 	if s.NGen > 0 {
-		return fmt.Sprintf("D{%d generated names of %d bytes}", s.NGen, s.NameLen)
+		ch := ""
+		if len(s.Children) > 0 {
+			parts := make([]string, len(s.Children))
+			for i, c := range s.Children {
+				parts[i] = c.String()
+			}
+			ch = fmt.Sprintf(" + (%s) longnames=%v", strings.Join(parts, " "), s.LongNames)
+		}
+		return fmt.Sprintf("D{%d generated names of %d bytes%s}", s.NGen, s.NameLen, ch)
 	}
 	if len(s.Children) == 0 {
 		return s.Kind
@@ -173,7 +194,7 @@ func (s fsSpec) materialise(path string, id *int) error {
 			}
 		}
 		for i, c := range s.Children {
-			if err := c.materialise(filepath.Join(path, fsNames[i]), id); err != nil {
+			if err := c.materialise(filepath.Join(path, s.childName(i)), id); err != nil {
 				return err
 			}
 		}
@@ -194,6 +215,11 @@ func (s fsSpec) materialise(path string, id *int) error {
 		return os.Symlink("/etc//hostname", path)
 	case "Ld":
 		return os.Symlink("does/./not/../exist", path)
+	case "LL":
+		// long targets: the dag-pb length prefix of the node grows to 2 bytes at 124
+		return os.Symlink(strings.Repeat("t/", 62), path) // 124 bytes
+	case "LX":
+		return os.Symlink("/"+strings.Repeat("long-target/", 170), path) // 2041 bytes
 	case "P":
 		return syscall.Mkfifo(path, 0o644)
 	case "S":
@@ -402,6 +428,13 @@ func runC18(r *core.Run) {
 		fsCase{Root: fsSpec{Kind: "D", NGen: 1111, NameLen: 200}},
 		fsCase{Root: fsSpec{Kind: "D", NGen: 1111, NameLen: 200, Children: []fsSpec{{Kind: "D", Children: []fsSpec{{Kind: "F"}, {Kind: "Lr"}}}, {Kind: "M"}}}},
 		fsCase{Root: fsSpec{Kind: "M"}},
+		// names at the 255-byte limit, in a plain and in an auto-sharded directory
+		fsCase{Root: fsSpec{Kind: "D", LongNames: true, Children: []fsSpec{{Kind: "F"}, {Kind: "E"}, {Kind: "F"}, {Kind: "Lr"}}}},
+		fsCase{Root: fsSpec{Kind: "D", NGen: 1030, NameLen: 255, LongNames: true, Children: []fsSpec{{Kind: "F"}, {Kind: "F"}, {Kind: "E"}, {Kind: "F"}}}},
+		fsCase{Root: fsSpec{Kind: "D", NGen: 1100, NameLen: 254, LongNames: true, Children: []fsSpec{{Kind: "F"}, {Kind: "F"}}}},
+		// long symlink targets
+		fsCase{Root: fsSpec{Kind: "LL"}}, fsCase{Root: fsSpec{Kind: "LX"}},
+		fsCase{Root: fsSpec{Kind: "D", Children: []fsSpec{{Kind: "LL"}, {Kind: "F"}, {Kind: "LX"}, {Kind: "D", Children: []fsSpec{{Kind: "LL"}}}}}},
 		fsCase{Root: fsSpec{Kind: "D", Children: []fsSpec{{Kind: "M"}, {Kind: "E"}}}},
 	)
 	base := scratchBase()
